@@ -110,11 +110,17 @@ theorem vals_spec {P : Nat} {s : CMO} (k : Candle ℚ) (h : Inv P s) :
   let p := s.pos_sum + (posPart (k.source s.cfg.source - prev) - posPart old)
   let n := s.neg_sum + (negPart (k.source s.cfg.source - prev) - negPart old)
   let s' : CMO := { s with pos_sum := p, neg_sum := n, change := { window := cw }, window := w' }
-  have hv : (VExp.quot (p - n) (p + n) (4 * (s.cfg.period : ℚ)) (4 * (s.cfg.period : ℚ)) .price [] (some 0)).value =
-      (if p + n = 0 then 0 else (p - n) / (p + n)) := by
-    simp [VExp.value]
   have hr := diff_ratio_range p n hp0 hn0
-  refine ⟨.quot (p - n) (p + n) (4 * (s.cfg.period : ℚ)) (4 * (s.cfg.period : ℚ)) .price [] (some 0), s', ?_,
+  have hv : (VExp.cquot (p - n) (p + n) (4 * (s.cfg.period : ℚ)) (4 * (s.cfg.period : ℚ)) .price [] (some 0) (-1) 1).value =
+      (if p + n = 0 then 0 else (p - n) / (p + n)) := by
+    rw [cquot_value]
+    by_cases hz : p + n = 0
+    · simp [hz]
+    · have hr' := hr
+      simp only [hz, if_false] at hr'
+      simp only [beq_iff_eq, hz, List.any_nil, Bool.or_false, Bool.false_eq_true, if_false]
+      exact qclamp_of_mem hr'.1 hr'.2
+  refine ⟨.cquot (p - n) (p + n) (4 * (s.cfg.period : ℚ)) (4 * (s.cfg.period : ℚ)) .price [] (some 0) (-1) 1, s', ?_,
     ⟨winv', by show 0 < w'.size; rw [wsz]; exact h.wpos, cinv', by show 0 < cw.size; rw [csz]; exact h.cpos, hps, hns⟩, hp0, hn0, hv, ?_, ?_⟩
   · simp only [CMO.vals, Momentum.next, hcp, bind, Except.bind, hp, pure, Except.pure]
     rfl
@@ -190,17 +196,25 @@ theorem vals_spec {fp fn : List ℚ → ℚ} {gains losses : List ℚ} {s : RSI}
     let pos := fp (gains ++ [g])
     let neg := -(fn (losses ++ [l]))
     ∃ v s', s.vals k = .ok ([v], s') ∧
-      v.value = (if pos + neg = 0 then half else pos / (pos + neg)) ∧
+      v.value = (if pos + neg = 0 then half else qclamp (pos / (pos + neg)) 0 1) ∧ 0 ≤ v.value ∧ v.value ≤ 1 ∧
       Realises fp s'.posma (gains ++ [g]) ∧ Realises fn s'.negma (losses ++ [l]) ∧
       s'.previous_input = src ∧ s'.cfg = s.cfg := by
   intro src g l pos neg
   obtain ⟨a, ha, ra⟩ := hp.step g
   obtain ⟨b, hb, rb⟩ := hn.step l
-  refine ⟨.quot pos (pos + neg) (maK s.posma) (2 * maK s.posma) .price [] (some half),
-    { s with previous_input := src, posma := a, negma := b }, ?_, ?_, ra, rb, rfl, rfl⟩
+  have hrange := cquot_range pos (pos + neg) (maK s.posma) (2 * maK s.posma) .price [] half 0 1 (by norm_num)
+    (by unfold half; constructor <;> norm_num)
+  refine ⟨.cquot pos (pos + neg) (maK s.posma) (2 * maK s.posma) .price [] (some half) 0 1,
+    { s with previous_input := src, posma := a, negma := b }, ?_, ?_, hrange.1, hrange.2, ra, rb, rfl, rfl⟩
   · simp only [RSI.vals, maNext, bind, Except.bind, ha, hb, pure, Except.pure, src, g, l, pos, neg]
     simp [mul_comm]
   · simp [VExp.value]
+
+/-- for non-negative averages the clamp does nothing -/
+theorem value_unclamped (pos neg : ℚ) (h1 : 0 ≤ pos) (h2 : 0 ≤ neg) (hz : pos + neg ≠ 0) :
+    qclamp (pos / (pos + neg)) 0 1 = pos / (pos + neg) := by
+  have hpos : 0 < pos + neg := lt_of_le_of_ne (by linarith) (Ne.symm hz)
+  exact qclamp_of_mem (div_nonneg h1 hpos.le) (by rw [div_le_one hpos]; linarith)
 
 /-- C12: with non-negative `pos` and `neg` the value is in [0,1] -/
 theorem value_range (pos neg : ℚ) (h1 : 0 ≤ pos) (h2 : 0 ≤ neg) :
